@@ -79,6 +79,38 @@ void reb_simulation_steps(struct reb_simulation* const r, unsigned int N_steps){
         reb_simulation_step(r);
     }
 }
+// ---- Verification hooks (see rebound.h). One line per event: name seq sim-address args...
+#include <stdarg.h>
+int reb_verif_state = -1;
+static FILE* reb_verif_file = NULL;
+static pthread_mutex_t reb_verif_mutex = PTHREAD_MUTEX_INITIALIZER;
+static unsigned long reb_verif_seq = 0;
+void reb_verif_emit(const struct reb_simulation* const r, const char* event, int nargs, ...){
+    if (reb_verif_state==0) return;
+    pthread_mutex_lock(&reb_verif_mutex);
+    if (reb_verif_state==-1){
+        const char* on = getenv("REBOUND_VERIF");
+        const char* fn = getenv("REBOUND_VERIF_TRACE");
+        reb_verif_state = 0;
+        if (on && on[0]=='1' && fn){
+            reb_verif_file = fopen(fn,"a");
+            if (reb_verif_file) reb_verif_state = 1;
+        }
+    }
+    if (reb_verif_state==1){
+        va_list ap;
+        va_start(ap, nargs);
+        fprintf(reb_verif_file,"%s %lu %p", event, reb_verif_seq++, (const void*)r);
+        for (int i=0;i<nargs;i++){
+            fprintf(reb_verif_file," %.17g", va_arg(ap,double));
+        }
+        fprintf(reb_verif_file,"\n");
+        fflush(reb_verif_file);
+        va_end(ap);
+    }
+    pthread_mutex_unlock(&reb_verif_mutex);
+}
+
 void reb_simulation_step(struct reb_simulation* const r){
     // Update walltime
     struct reb_timeval time_beginning;
@@ -182,6 +214,7 @@ void reb_simulation_step(struct reb_simulation* const r){
     r->walltime += r->walltime_last_step;
     // Update step counter
     r->steps_done++; // This also counts failed IAS15 steps
+    REB_VERIF(r, "step", 4, r->t, r->dt, r->dt_last_done, (double)r->steps_done);
 }
 
 void reb_exit(const char* const msg){
@@ -651,6 +684,8 @@ void reb_simulation_init(struct reb_simulation* r){
 
 
 int reb_check_exit(struct reb_simulation* const r, const double tmax, double* last_full_dt){
+    const int reb_verif_status_in = r->status;
+    const double reb_verif_dt_in = r->dt;
     if(r->status <= REB_STATUS_SINGLE_STEP){
         if(r->status == REB_STATUS_SINGLE_STEP){
             r->status = REB_STATUS_PAUSED;
@@ -734,6 +769,7 @@ int reb_check_exit(struct reb_simulation* const r, const double tmax, double* la
     }
 
 #endif // MPI
+    REB_VERIF(r, "check_exit", 8, r->t, reb_verif_dt_in, r->dt, tmax, (double)reb_verif_status_in, (double)r->status, *last_full_dt, r->dt_last_done);
     return r->status;
 }
 
@@ -808,6 +844,7 @@ static void* reb_simulation_integrate_raw(void* args){
 
     double last_full_dt = r->dt; // need to store r->dt in case timestep gets artificially shrunk to meet exact_finish_time=1
     r->dt_last_done = 0.; // Reset in case first timestep attempt will fail
+    REB_VERIF(r, "int_begin", 4, r->t, r->dt, thread_info->tmax, (double)r->exact_finish_time);
 
     if (r->testparticle_hidewarnings==0 && reb_particle_check_testparticles(r)){
         reb_simulation_warning(r,"At least one test particle (type 0) has finite mass. This might lead to unexpected behaviour. Set testparticle_hidewarnings=1 to hide this warning.");
@@ -883,6 +920,7 @@ static void* reb_simulation_integrate_raw(void* args){
         r->dt = last_full_dt; 
     }
     if (r->simulationarchive_filename){ reb_simulationarchive_heartbeat(r);}
+    REB_VERIF(r, "int_end", 3, r->t, r->dt, (double)r->status);
 
     return NULL;
 }
